@@ -844,6 +844,65 @@ def check_caller_dicts(task):
     return {"transitions": n, "histories": n, "viols": viols}
 
 
+# ------------------------------------------------------------------ the stored value depends on the assigned value only
+COLOR_VALUES = [(1, 0, 0), (1.0, 0.0, 0.0), (True, False, False), (0, 1, 1), (0.0, 1.0, 1.0), (255, 0, 0), (0.5, 0.5, 0.5), [1, 0, 0], [1.0, 0.0, 0.0],
+                1, 1.0, True, 0, 0.0, False, 0.5, "0.5", "1", "red", "RED", " red", "r", "#f00", "#ff0000", "#FF0000", "rgb(255,0,0)",
+                "RGB(255, 0, 0)", (1, 0, 0, 1), (1.0, 0.0, 0.0, 0.5), (0, 0, 0), (0.0, 0.0, 0.0), None]
+_VH_SCRIPT = r"""
+import sys, json
+sys.path.insert(0, %(verif)r)
+from mc import common
+common.bind_repo()
+import magpylib as magpy
+from mc.props.C20 import COLOR_VALUES
+arg = json.loads(sys.argv[1])
+leaves = ("color", "magnetization.color.north", "path.line.color")
+def assign(i, leaf):
+    o = magpy.magnet.Cuboid(dimension=(1, 1, 1), polarization=(0, 0, 1))
+    node = o.style
+    *par, last = leaf.split(".")
+    for q in par:
+        node = getattr(node, q)
+    try:
+        setattr(node, last, COLOR_VALUES[i])
+        return repr(getattr(node, last))
+    except Exception as e:
+        return "EXC " + type(e).__name__
+def both(j):
+    return [assign(j, leaves[(j %% 2) + 1]), assign(j, leaves[0])]
+if arg.get("only") is not None:
+    out = [both(arg["only"])]
+else:
+    assign(arg["first"], leaves[0])
+    out = [both(j) for j in range(len(COLOR_VALUES))]
+print("RESULT " + json.dumps(out))
+"""
+
+
+def _vh_run(first=None, only=None):
+    import os
+    import subprocess
+    import sys
+
+    script = _VH_SCRIPT % {"verif": common.VERIF}
+    r = subprocess.run([sys.executable, "-c", script, json.dumps({"first": first, "only": only})], capture_output=True, text=True,
+                       env=dict(os.environ), cwd=common.VERIF, timeout=300)
+    for line in r.stdout.splitlines():
+        if line.startswith("RESULT "):
+            return json.loads(line[7:])
+    raise RuntimeError("value-history subprocess failed: " + (r.stderr or r.stdout)[-300:])
+
+
+def check_value_history(task):
+    """what a style leaf stores depends on the assigned value only - not on values that were assigned before, to this or any
+    other object (validators must not remember equal-comparing values of another type). Reference: the same single assignment
+    in a fresh interpreter; history: value i assigned first, then every value of the alphabet to fresh objects, in one process."""
+    _, i = task
+    if task[0] == "valuefresh":
+        return {"transitions": 1, "viols": [], "fresh": _vh_run(only=i)[0]}
+    return {"transitions": len(COLOR_VALUES), "viols": [], "after": _vh_run(first=i)}
+
+
 def leaves_of(fam):
     o = FAMILIES[fam]()
     out = []
@@ -868,6 +927,8 @@ def work(task):
             return check_children(task)
         if task[0] == "callerdict":
             return check_caller_dicts(task)
+        if task[0] in ("valuehist", "valuefresh"):
+            return check_value_history(task)
         return check_leaf(task)
     except Exception as e:
         import traceback
@@ -890,8 +951,15 @@ def run(tier, seed):
     dtasks += [("pipeline", fam, tier) for fam in ("magnet", "current", "sensor", "dipole", "triangle", "triangularmesh", "base")]
     dtasks += [("pairs", fam, leaf, tier) for fam in FAMILIES for leaf in leaves_of(fam)
                if not (tier == "quick" and fam in ("triangularmesh", "triangle"))]
+    nval = len(COLOR_VALUES)
+    firsts = range(nval) if tier == "thorough" else [0, 1, 2, 9, 10, 11, 18, 22, 27]
+    dtasks += [("valuefresh", i) for i in range(nval)] + [("valuehist", i) for i in firsts]
     res = common.pmap(work, tasks + dtasks, chunk=1)
     viols, harness, uncovered = [], [], []
+    fresh = {t[1]: r.get("fresh") for t, r in zip(tasks + dtasks, res) if t[0] == "valuefresh" and not r.get("harness")}
+    for t, r in zip(tasks + dtasks, res):
+        if t[0] == "valuehist" and not r.get("harness") and len(fresh) == nval:
+            r["viols"] += _value_history_viols(t[1], r["after"], [fresh[j] for j in range(nval)])
     trans = hist = 0
     samples = []
     for t, r in zip(tasks + dtasks, res):
@@ -909,6 +977,8 @@ def run(tier, seed):
             tname = f"{t[0]}.{t[1]}" if t[0] != "pairs" else f"{t[1]}.{t[2]}"
             if t[0] in ("pipeline", "children", "callerdict"):
                 tname = f"{t[1]}.{steps[1]}"
+            if t[0] == "valuehist":
+                tname = "valuehistory.color"
             viols.append({"key": f"C20|{tname}|{kind}",
                           "what": f"{tname}: {kind} history={steps} {detail}",
                           "case": {"task": list(t), "kind": kind}, "observed": [kind, detail]})
@@ -930,8 +1000,23 @@ def run(tier, seed):
                             "a fresh object has no own style value, so family/base defaults must apply to it"]}
 
 
+def _value_history_viols(first, after, fresh):
+    out = []
+    for j, got in enumerate(after):
+        if got != fresh[j]:
+            out.append((f"stored-value-depends-on-earlier-assignments:{type(COLOR_VALUES[j]).__name__}",
+                        ["color", f"first={COLOR_VALUES[first]!r}", f"then={COLOR_VALUES[j]!r}"], f"stored {got} ; alone in a fresh interpreter {fresh[j]}"))
+            break
+    return out
+
+
 def replay(case):
     t = case["task"]
+    if t[0] == "valuehist":    # self-contained: the references (one fresh interpreter per value) are recomputed
+        after = _vh_run(first=t[1])
+        fresh = [_vh_run(only=j)[0] for j in range(len(COLOR_VALUES))]
+        vs = [v for v in _value_history_viols(t[1], after, fresh) if v[0] == case.get("kind")]
+        return {"violated": bool(vs), "observed": [[v[0], [str(x) for x in v[1]], v[2]] for v in vs][:5]}
     r = work(tuple(t))
     vs = [v for v in r.get("viols", []) if v[0] == case.get("kind")]
     return {"violated": bool(vs), "observed": [[v[0], [str(x) for x in v[1]], v[2]] for v in vs][:5]}
